@@ -4,7 +4,7 @@
    Definitions only. *)
 From Coq Require Import String.
 From Coq Require Import QArith Qcanon.
-From PC Require Export Model.Circuit Model.Entropy Model.Parse Model.Random Model.Diag Model.Index Model.Poly Model.Sample.
+From PC Require Export Model.Circuit Model.Entropy Model.Parse Model.Random Model.Diag Model.Index Model.Poly Model.Sample Model.Sbrg.
 Open Scope Z_scope.
 
 Inductive val := VZ (z : Z) | VL (l : list val) | VE (code : Z).
@@ -235,6 +235,14 @@ Definition run (name : string) (a : val) : val :=
          match dObj a2 with OPoly n p => eObj (OPoly n (poly_rotate (dPauli a0) (dOpt dMask a1) p)) | _ => VE 1 end
   else if is name "poly_transform" then
          match dObj a2 with OPoly n p => eObj (OPoly n (poly_transform (dPlist a0) (dOpt dMask a1) p)) | _ => VE 1 end
+  else if is name "sbrg" then                                              (* tol, default tol of reduce, Hamiltonian *)
+         match dObj a2 with
+         | OPoly n p =>
+             let '(heff, gs) := sbrg n (dQ a0 * dQ a0)%Qc (dQ a1 * dQ a1)%Qc p in
+             VL [eObj (OPoly n heff);
+                 eL (fun g => VL [eL eN (gq g); match gk g with GGen gen => ePauli gen | _ => VE 1 end]) gs]
+         | _ => VE 1
+         end
   (* ---- indexing ---- *)
   else if is name "get_int" then eOptE ePauli (get_int (dPlist a0) (dZ a1))
   else if is name "get_slice" then ePlist (get_slice (dPlist a0) (dOpt dZ a1) (dOpt dZ a2))
